@@ -76,6 +76,9 @@ def encode(kind, tree, task=None):
         (d.dir / 'tree.json').write_text(blob)
         (d.dir / 'sub').mkdir(exist_ok=True)
         (d.dir / 'sub' / 'more.txt').write_text('x' * 10)
+        if kind == 'dir' and tree.get('#gen') is not None:
+            # a file only THIS run writes: a directory result must hold the files of one run and nothing else
+            (d.dir / f"run_{tree['#gen']}.txt").write_text('r')
         if kind == 'continues':
             d.finished()
         return d
@@ -111,7 +114,13 @@ def decode(kind, value):
         p = Path(value)
         if (p / 'sub' / 'more.txt').read_text() != 'x' * 10:
             raise ValueError('incomplete directory')
-        return json.loads((p / 'tree.json').read_text())
+        tree = json.loads((p / 'tree.json').read_text())
+        if kind == 'dir':
+            want = {'tree.json', 'sub', 'sub/more.txt'} | ({f"run_{tree['#gen']}.txt"} if tree.get('#gen') is not None else set())
+            have = {str(q.relative_to(p)) for q in p.rglob('*')}
+            if have != want:
+                raise ValueError(f'directory result holds {sorted(have)}, the run that produced it wrote {sorted(want)}')
+        return tree
     if kind == 'mem':
         return value.tree
     raise ValueError(kind)
